@@ -54,6 +54,22 @@ def cmd_check(args):
         ctx.anchor_lost("internal", "checker exception: " + traceback.format_exc().splitlines()[-1])
         res = None
     res = res or {}
+    if tier == "thorough" and not os.environ.get("ZV_REPO"):
+        # calibration of the checker itself: recorded breaking / benign changes, each in a scratch worktree
+        from . import selftest
+        try:
+            st = selftest.run(prop)
+            bad = [r for r in st if not r["ok"]]
+            cov = dict(res.get("coverage") or {})
+            cov["selftest"] = {"patches": len(st), "as_expected": len(st) - len(bad),
+                               "breaking_detected": sum(1 for r in st if r.get("expected") == "violation" and r["ok"]),
+                               "benign_silent": sum(1 for r in st if r.get("expected") != "violation" and r["ok"]),
+                               "not_as_expected": [r["patch"] for r in bad], "results": st}
+            res["coverage"] = cov
+            print("[%s] self-test: %d recorded changes, %d as expected%s" % (prop, len(st), len(st) - len(bad),
+                  (", NOT as expected: %s" % [r["patch"] for r in bad]) if bad else ""))
+        except Exception:
+            traceback.print_exc()
     return report.finish(ctx, level=res.get("level", "other"),
                          explanation=getattr(mod, "EXPLANATION", "") or res.get("explanation", ""),
                          extra_cov=res.get("coverage"))
